@@ -152,6 +152,54 @@ theorem instance_text_covers (dyn : Q → Bool) (sub : Path → Str → Str) (ro
     rw [leaves_node_of_ne _ _ _ _ _ _ (instKids_ne dyn false els hne)]
     simpa using template_covers dyn els [root] x h
 
+/-! ## the property, per question -/
+
+theorem expSetP_ref (dyn : Q → Bool) (sub : Path → Str → Str) (z : Path × Option Path × Q) (f : SetFact)
+    (hf : f ∈ expSetP dyn sub z) : f.set.ref = z.1 := by
+  unfold expSetP at hf
+  split at hf
+  · simp only [List.mem_singleton] at hf; subst hf; rfl
+  · simp at hf
+
+/-- **exactly_once** (all trees; `y` = a question with its path and nearest repeat ancestor; paths of
+    questions pairwise different, which `Survey.validate` enforces):
+    * every copy of the question's node — in the instance and in every `jr:template` subtree — has
+      the default as text when it is static and is empty otherwise; the instance copy exists, and a
+      template copy exists when the question has a repeat ancestor;
+    * the first-load setvalues targeting the node, wherever they are (`<model>` or any `<repeat>`),
+      are: none when the default is static or absent; exactly one when it is dynamic — in `<model>`
+      with event `odk-instance-first-load` when there is no repeat ancestor, else inside the nearest
+      repeat with events `odk-instance-first-load odk-new-repeat` (`expSetP`). -/
+theorem exactly_once (dyn : Q → Bool) (sub : Path → Str → Str) (root : Str) (els : List El)
+    (y : Path × Option Path × Q) (hy : y ∈ qwn [root] none els)
+    (huniq : ((qwn [root] none els).map (·.1)).Nodup) (hne : secsNonEmpty els = true) :
+    (∀ l ∈ leaves [] false (gen dyn sub root els).inst, l.path = y.1 →
+        l.text = (if !y.2.2.default.isEmpty && !dyn y.2.2 then y.2.2.default else [])) ∧
+    expLeaf dyn false (y.1, y.2.2) ∈ leaves [] false (gen dyn sub root els).inst ∧
+    (y.2.1.isSome = true → expLeaf dyn true (y.1, y.2.2) ∈ leaves [] false (gen dyn sub root els).inst) ∧
+    (setFacts (gen dyn sub root els)).filter (fun f => decide (f.set.ref = y.1)) = expSetP dyn sub y := by
+  have hels : els ≠ [] := by intro h0; subst h0; simp [qwn] at hy
+  have hx : (y.1, y.2.2) ∈ qwp [root] els := by
+    rw [← qwn_forget els [root] none]
+    exact List.mem_map.2 ⟨y, hy, rfl⟩
+  refine ⟨?_, (instance_text_covers dyn sub root els _).1 hx, ?_, ?_⟩
+  · intro l hl hp
+    obtain ⟨x, hxq, h1, h2⟩ := instance_text_sound dyn sub root els hne hels l hl
+    rw [← qwn_forget els [root] none] at hxq
+    obtain ⟨y', hy', rfl⟩ := List.mem_map.1 hxq
+    have : y' = y := nodup_key_unique (·.1) _ huniq y' hy' y hy (by simpa using h1.symm.trans hp)
+    subst this
+    exact h2
+  · intro hs
+    exact (instance_text_covers dyn sub root els _).2 (qwn_inRepeat els [root] y hy hs)
+  · have hperm := (setvalues_exactly_once dyn sub root els).filter (fun f => decide (f.set.ref = y.1))
+    rw [expSets_eq_flatMap,
+      filter_flatMap_unique (·.1) (·.set.ref) (expSetP dyn sub) (expSetP_ref dyn sub) _ huniq y hy] at hperm
+    unfold expSetP at hperm ⊢
+    split at hperm
+    · rename_i h; simp only [h, if_true]; exact List.perm_singleton.1 hperm
+    · rename_i h; simp only [h]; exact hperm.eq_nil
+
 /-! ## triggers -/
 
 /-- the builder's trigger table holds exactly one entry per question with a trigger cell -/
@@ -234,6 +282,15 @@ example : (["data".toList, "r".toList, "g".toList, "c".toList], exC) ∈ qwp ["d
   simp [exTree, exB, exC, qwp, qInRepeat]
 example : exC.trigger.isEmpty = false ∧ strip exC.trigger = refOf exB.name ∧ shown exB = true := by
   simp [exC, exB, strip, lstrip, rstrip, pyIsSpace, refOf, shown, hiddenQ]
+-- hypotheses of `exactly_once` hold for question b (dynamic default inside repeat r) of the example tree
+example : (["data".toList, "r".toList, "b".toList], some ["data".toList, "r".toList], exB) ∈ qwn ["data".toList] none exTree
+    ∧ ((qwn ["data".toList] none exTree).map (·.1)).Nodup := by
+  simp [exTree, exB, exC, qwn]
+example : expSetP dynEx subEx (["data".toList, "r".toList, "b".toList], some ["data".toList, "r".toList], exB)
+    = [{ loc := some ["data".toList, "r".toList],
+         set := { tag := "setvalue".toList, ref := ["data".toList, "r".toList, "b".toList], event := evNewRepeat,
+                  value := some "now()".toList } }] := by
+  simp [expSetP, hasDynDefault, dynEx, exB, subEx]
 -- lexer: the traps of DESIGN Appendix F on the pinned rules
 example : (scanWith pinnedRules "a <= b".toList).1.map (·.1) = ["NAME", "WHITESPACE", "OPS_COMP", "OPS_COMP", "WHITESPACE", "NAME"] := by
   decide +kernel
